@@ -102,3 +102,87 @@ pub fn items(limit: usize) -> Vec<(Item, usize)> {
     }
     out
 }
+
+// ---------------------------------------------------------------------------------------------------------------
+// record writers on a BGZF writer: the boundary sweeps over the end of the header and the start of the first record
+
+/// Offsets swept: `header_end - BEFORE + j` for `j in 0..SPAN` (header_end = start of the first record in the inflated
+/// stream): the tail of the header text, BAM n_ref / l_name / name / l_ref, the first record's size fields and fixed
+/// part; for the text kinds the last header line and the first record line.
+pub const BEFORE: usize = 24;
+pub const SPAN: usize = 64;
+
+pub fn inflated_header_end(kind: Kind, payload: &[u8]) -> usize {
+    fn text_header_end(bytes: &[u8], lead: u8) -> usize {
+        let mut p = 0usize;
+        while p < bytes.len() && bytes[p] == lead {
+            match bytes[p..].iter().position(|&b| b == b'\n') {
+                Some(i) => p += i + 1,
+                None => return bytes.len(),
+            }
+        }
+        p
+    }
+    match kind {
+        Kind::Bam => corpus::bounds::bam_record_offsets(payload).and_then(|v| v.first().copied()).unwrap_or(0),
+        Kind::Bcf => corpus::bounds::bcf_record_offsets(payload).and_then(|v| v.first().copied()).unwrap_or(0),
+        Kind::SamGz => text_header_end(payload, b'@'),
+        Kind::VcfGz => text_header_end(payload, b'#'),
+        _ => 0,
+    }
+}
+
+fn sam_model(pad: usize) -> Vec<u8> {
+    let mut t = Vec::new();
+    t.extend_from_slice(b"@HD\tVN:1.6\tSO:coordinate\n@SQ\tSN:sq0\tLN:100000\n@SQ\tSN:sq1\tLN:5000\n@CO\t");
+    t.extend(std::iter::repeat(b'c').take(pad.max(1)));
+    t.extend_from_slice(b"\n");
+    for i in 0..4 {
+        t.extend_from_slice(format!("read{i}\t0\tsq0\t{}\t60\t8M\t*\t0\t0\tACGTACGT\tIIIIIIII\tNM:i:{i}\tXS:Z:boundary\n", 10 + i * 7).as_bytes());
+    }
+    t
+}
+
+fn vcf_model(pad: usize) -> Vec<u8> {
+    let mut t = Vec::new();
+    t.extend_from_slice(b"##fileformat=VCFv4.3\n##contig=<ID=sq0,length=100000>\n##INFO=<ID=DP,Number=1,Type=Integer,Description=\"Depth\">\n##FORMAT=<ID=GT,Number=1,Type=String,Description=\"Genotype\">\n##pad=");
+    t.extend(std::iter::repeat(b'c').take(pad.max(1)));
+    t.extend_from_slice(b"\n#CHROM\tPOS\tID\tREF\tALT\tQUAL\tFILTER\tINFO\tFORMAT\ts0\n");
+    for i in 0..4 {
+        t.extend_from_slice(format!("sq0\t{}\trs{i}\tA\tC\t30\tPASS\tDP={}\tGT\t0/1\n", 100 + i * 13, 5 + i).as_bytes());
+    }
+    t
+}
+
+/// `(item, j)`: the block boundary lies at inflated offset `header_end - BEFORE + j`.
+pub fn record_items(limit: usize) -> Vec<(Item, usize)> {
+    let mut out = Vec::new();
+    if limit < 4096 {
+        return out;
+    }
+    for kind in [Kind::Bam, Kind::Bcf, Kind::SamGz, Kind::VcfGz] {
+        let build = |pad: usize| -> Option<(Item, usize)> {
+            let model = if matches!(kind, Kind::Bam | Kind::SamGz) { sam_model(pad) } else { vcf_model(pad) };
+            let mut item = Item { kind, name: String::new(), bytes: Vec::new(), side: Side { writable: true, model: Some(model), ..Side::default() } };
+            let mut bytes = Vec::new();
+            corpus::write_history(&item, &mut bytes).ok()?;
+            let payload = vcore::bgzf::walk(&bytes).ok()?.concat();
+            let he = inflated_header_end(kind, &payload);
+            item.bytes = bytes;
+            Some((item, he))
+        };
+        let p1 = limit - 3000;
+        let Some((_, he1)) = build(p1) else { continue };
+        for j in 0..SPAN {
+            // want: limit == header_end - BEFORE + j
+            let Some(pad) = (p1 + limit + BEFORE).checked_sub(he1 + j) else { continue };
+            let Some((mut item, he)) = build(pad) else { continue };
+            if he + j != limit + BEFORE {
+                continue;
+            }
+            item.name = format!("{}/block-boundary-sweep-header-end{:+03}", kind.name(), j as isize - BEFORE as isize);
+            out.push((item, j));
+        }
+    }
+    out
+}
